@@ -70,7 +70,9 @@ type Case struct {
 	Readers  int        `json:"readers"` // kind conc*
 	Present  bool       `json:"present"` // kind conc*
 	Pk       string     `json:"pk"`      // kind conc*: primary key of the row
-	Ctx      string     `json:"ctx"`     // kind conc*: "" (every reader's context lives) | leadercancel | leaderdeadline
+	Mutate   bool       `json:"mutate"`  // kind conc*: the leader overwrites its destination as soon as its read returns, and only
+	//                                      then do the readers that shared its flight get to consume the shared result
+	Ctx string `json:"ctx"` // kind conc*: "" (every reader's context lives) | leadercancel | leaderdeadline
 	//                                      (the LEADER's context dies while its query is in progress, the followers' live) |
 	//                                      followercancel | followerdeadline (the reverse)
 }
@@ -120,6 +122,7 @@ type ConcObs struct {
 	MaxPar  int      `json:"maxpar"`  // max number of queries in flight at once
 	Seen    []string `json:"seen"`
 	Leader  int      `json:"leader"` // the reader whose query ran first
+	Shared  int      `json:"shared"` // mutate: calls that shared a flight (held until the leader had overwritten its value)
 	Dump    []Entry  `json:"dump"`   // store contents when every reader has returned
 }
 
@@ -968,6 +971,37 @@ func cacheOp(ch cache.Cache, db *fakeDB, kind string, op []any, row any) error {
 	return fmt.Errorf("verif: no cache-level op %q", kind)
 }
 
+// holdFlight is the real single flight; it only holds every caller that SHARED a call (fresh ==
+// false) at the point where DoEx hands it the shared result, until the monitor releases it
+// (after the leader - whose read has returned by then - has overwritten its destination value).
+type holdFlight struct {
+	syncx.SingleFlight
+	release chan struct{}
+	shared  int32
+}
+
+func (f *holdFlight) DoEx(key string, fn func() (any, error)) (any, bool, error) {
+	val, fresh, err := f.SingleFlight.DoEx(key, fn)
+	if !fresh {
+		atomic.AddInt32(&f.shared, 1)
+		select {
+		case <-f.release:
+		case <-time.After(3 * time.Second):
+		}
+	}
+	return val, fresh, err
+}
+
+// the caller owns its destination again once its read has returned: overwrite every field
+func overwrite(v any) {
+	switch t := v.(type) {
+	case *RowI:
+		*t = RowI{-777, -1, -1}
+	case *RowS:
+		*t = RowS{"overwritten by its owner", -1, -1}
+	}
+}
+
 // load suppression: `readers` goroutines read the same uncached key (kind conc: QueryRow on
 // the primary key; kind concqri: QueryRowIndex on the index key), each under ITS OWN context; the
 // database query parks on a gate until every other reader is parked inside the barrier.
@@ -989,6 +1023,16 @@ func runConc(c Case) Out {
 		db.rows[pk] = Row{pk, 7, 42}
 	}
 	cc := newConn(c)
+	hf := &holdFlight{SingleFlight: syncx.NewSingleFlight(), release: make(chan struct{})}
+	var releaseOnce sync.Once
+	if c.Mutate {
+		// the same cache, built with a barrier of ours (public API: cache.New + sqlc.NewConnWithCache)
+		var conf cache.CacheConf
+		for n := 0; n < c.Nodes; n++ {
+			conf = append(conf, cache.NodeConf{RedisConf: redis.RedisConf{Host: servers[n].Addr(), Type: rtype}, Weight: 100})
+		}
+		cc = sqlc.NewConnWithCache(nil, cache.New(conf, hf, cache.NewStat("verif"), sql.ErrNoRows, options(c)...))
+	}
 	res := make([]string, c.Readers)
 	ctxs := make([]*manualCtx, c.Readers)
 	var finished int32
@@ -1024,6 +1068,16 @@ func runConc(c Case) Out {
 			default:
 				res[i] = classify(err, nil)
 			}
+			if c.Mutate {
+				db.mu.Lock()
+				lead := db.leader
+				db.mu.Unlock()
+				if i == lead {
+					// what the reader received is recorded above; from here on the value is its caller's
+					overwrite(row)
+					releaseOnce.Do(func() { close(hf.release) })
+				}
+			}
 		}(i)
 	}
 	// readers parked inside a database query / waiting in the barrier
@@ -1034,7 +1088,8 @@ func runConc(c Case) Out {
 			}
 			if strings.Contains(g, "main.(*fakeDB).enter") && hx.Blocked(g) {
 				inGate++
-			} else if strings.Contains(g, "syncx.(*flightGroup).createCall") && hx.Blocked(g) {
+			} else if (strings.Contains(g, "syncx.(*flightGroup).createCall") ||
+				strings.Contains(g, "main.(*holdFlight).DoEx")) && hx.Blocked(g) {
 				inBarrier++
 			}
 		}
@@ -1091,7 +1146,7 @@ func runConc(c Case) Out {
 	close(db.gate2)
 	wg.Wait()
 	out.Conc = &ConcObs{Queries: db.qp + db.qi, QI: db.qi, QP: db.qp, Blocked: b, Results: res,
-		MaxPar: int(db.maxq), Seen: db.seen, Leader: leader, Dump: dump(c.Nodes)}
+		MaxPar: int(db.maxq), Seen: db.seen, Leader: leader, Dump: dump(c.Nodes), Shared: int(atomic.LoadInt32(&hf.shared))}
 	return out
 }
 
